@@ -93,3 +93,7 @@ def _(self, order: Ref("BaseOrder"), market_version: Opt(INT) = None, execute: B
                                                        and self._pending_place[len(self._pending_place) - 1] == (order, market_version)
                                                        and forall(lambda j: self._pending_place[j] == old(self._pending_place[j]), 0, old(len(self._pending_place)))))
     ensures("not_executed_request_is_not_queued", implies(result and not execute, unchanged_list(self._pending_place) and unchanged(self, "_pending_orders")))
+    # "a forced request skips the controls but nothing else": every accepted request that is sent is also counted in the
+    # strategy's runner accounting (forced or not) - the limits of later orders are checked against that accounting
+    ensures("accepted_executed_request_is_counted_by_the_runner_accounting", implies(result and execute,
+            order.lookup in order.trade.strategy._invested and order.trade.strategy._invested[order.lookup].invested))
